@@ -296,15 +296,15 @@ func (c *kase) oracle(runs []*obs) []core.Failure {
 				fmt.Sprintf("provision 1: %s ; provision %d: %s", c.invariantPart(o0), i+2, c.invariantPart(o)))
 		case c.detailed(o) != c.detailed(o0):
 			what := fmt.Sprintf("provision 1: %s ; provision %d: %s", c.detailed(o0), i+2, c.detailed(o))
+			// a difference is attributed to a known map-order dependence only if the config
+			// satisfies that dependence's predicate (Spec.ambRecv / Spec.ambName)
 			switch {
 			case !amb:
 				fail("nondeterministic:redirect-routes", what)
-			case c.redirFacts(o) == c.redirFacts(o0) && c.ambRecv():
+			case c.ambRecv() && (!c.anyAmbName() || c.redirFacts(o) == c.redirFacts(o0)):
 				fail("map-order:redirect-placement:two-servers-listen-on-the-http-port", what)
-			case c.anyAmbName():
-				fail("map-order:redirect-address:name-on-two-servers-one-off-the-https-port", what)
 			default:
-				fail("nondeterministic:redirect-routes", what)
+				fail("map-order:redirect-address:name-on-two-servers-one-off-the-https-port", what)
 			}
 		case c.effTable(o) != c.effTable(o0):
 			fail("map-order:redirect-target:name-covered-by-redirects-to-different-ports",
